@@ -156,3 +156,62 @@ Theorem C13_scope_table_ok :
                      negb (match scope_paths pc with [] => true | _ => false end)) scope_table = true.
 Proof. exact scope_table_ok. Qed.
 Print Assumptions C13_scope_table_ok.
+
+(* ---- translated router functions (harness/c13/translate_b.py -> Gen/Facts_C13.v, the gen_ programs): for EVERY value of the
+   leaves, the program regenerated from the current source of _process_response_callbacks,
+   _process_finished_callbacks, Router.finish_request, Router.invoke_request, RequestContext.begin/end/
+   __enter__/__exit__, default_execution_policy (+ request_context), Router.invoke_subrequest, _error_handler and
+   excview_tween equals the reference program, pointwise *)
+Theorem C13_gen_is_ref : forall P : prims,
+  (forall st, gen_process_response_callbacks P st = ref_resp_loop P st) /\
+  (forall st, gen_process_finished_callbacks P st = ref_fin_loop P st) /\
+  (forall st, gen_finish_request P st = ref_finish_request P st) /\
+  (forall tw st, gen_invoke_request P tw st = ref_invoke_request P tw st) /\
+  (forall m st, bind (gen_rc_enter P) (fun _ => finally m (gen_rc_exit P)) st = ref_scope P m st) /\
+  (forall st, gen_default_execution_policy P st = ref_default_execution_policy P st) /\
+  (forall tw st, gen_invoke_subrequest P tw st = ref_invoke_subrequest P tw st) /\
+  (forall k st, gen_error_handler P k st = ref_error_handler P k st) /\
+  (forall st, gen_excview_tween P st = ref_excview_tween P st).
+Proof. exact gen_is_ref. Qed.
+Print Assumptions C13_gen_is_ref.
+
+(* with the leaves of the pipeline interpreter, the generated programs are the hand-written model: per request
+   (any level, any subrequest behaviour, the tween chain being the model's) ... *)
+Theorem C13_gen_request_is_model : forall ev l sc subrun chain,
+  (forall st, chain st = tween_chain ev l sc subrun st) ->
+  let P := prims_of ev l sc subrun chain in
+  (forall tw st, gen_invoke_request P tw st = invoke_request ev l sc tw subrun st) /\
+  (forall tw st, gen_invoke_subrequest P tw st = frame l (invoke_request ev l sc tw subrun) st) /\
+  (forall st, gen_default_execution_policy P st = frame l (invoke_request ev l sc true subrun) st) /\
+  (forall st, gen_excview_tween P st =
+              excview_tween ev l sc (tween l sc P_UNDER_IN P_UNDER_OUT (handle_request l sc subrun)) st) /\
+  (forall st, gen_process_response_callbacks P st = resp_loop l sc st) /\
+  (forall st, gen_process_finished_callbacks P st = fin_loop l sc st).
+Proof. exact gen_request_is_model. Qed.
+Print Assumptions C13_gen_request_is_model.
+
+(* ... and for the interpreter assembled from the generated programs at EVERY level of the scenario tree (this is
+   what the extracted runner executes in the correspondence run) *)
+Theorem C13_gen_run_is_model :
+  (forall sc ev l tw st, gen_run_request ev l sc tw st = run_request ev l sc tw st) /\
+  (forall ev sc s0, gen_run_top ev sc s0 = run_top ev sc s0).
+Proof. exact (conj gen_run_request_is_model gen_run_top_is_model). Qed.
+Print Assumptions C13_gen_run_is_model.
+
+(* the property theorems, restated for the generated interpreter *)
+Theorem C13_gen_pipeline_depth : forall ev sc s0 st r,
+  gen_run_top ev sc s0 = (st, r) ->
+  stk st = s0 /\ Forall (fun e => e_cur e = true) (log st).
+Proof. exact gen_pipeline_depth. Qed.
+Print Assumptions C13_gen_pipeline_depth.
+
+Theorem C13_gen_satisfies_judge : forall ev sc st r,
+  valid_tree sc = true -> gen_run_top ev sc [] = (st, r) ->
+  judge sc (N.of_nat (length (stk st))) (log st) = true.
+Proof. exact gen_satisfies_judge. Qed.
+Print Assumptions C13_gen_satisfies_judge.
+
+Example ex_gen_run_with_excview :
+  exists st, gen_run_top 1 (Scn false [mkFault P_VIEW K_PLAIN 0] [mkReg P_VIEW 3 0] NoSub) [] = (st, Ok P_EXCVIEW)
+             /\ map e_pt (log st) = [1; 2; 3; 6; 7; 8; 9; 10; 11; 12; 19; 15; 16; 17; 18]%N.
+Proof. eexists. split; vm_compute; reflexivity. Qed.
